@@ -41,7 +41,7 @@ CLASSIC = [
     ("iter_scope", 'x := 1\nit := <{|i| yield i + x if i < 3; recur(i + 1)}>.new(0)\nx := 10\n[it.next, it.next].p'),
 ]
 
-PARAMS_FN = '{|a, b, c, k1: 10, k2: 20| [a, b, c, k1, k2, \\0, \\_]}'
+PARAMS_FN = '{|a, b, c, k1: 10, k2: 20| [a, b, c, k1, k2, \\0, \\_, \\_.keys, \\_.items, \\_@{|k, v| v}]}'
 
 
 def binding_cases():
@@ -141,7 +141,7 @@ def main(chk):
             cases.append(("binding", prog))
     # method / receiver forms with the same argument lists
     for v in ["", "1", "1, 2", "1, k1: 3", "*[1, 2], k2: 4", "1, **{k1: 5}"]:
-        cases.append(("method_binding", "o := {tag: 9, m: {|self, a, b, k1: 10, k2: 20| [self.tag, a, b, k1, k2, \\0, \\_]}}\no.m(%s).p\n" % v))
+        cases.append(("method_binding", "o := {tag: 9, m: {|self, a, b, k1: 10, k2: 20| [self.tag, a, b, k1, k2, \\0, \\_, \\_.keys, \\_.values]}}\no.m(%s).p\n" % v))
     g = ScopeGen(chk.rng)
     n = 400 if chk.tier == "quick" else 4000
     for _ in range(n):
